@@ -2726,11 +2726,15 @@ def exit_interactive_mode():
 
 @contextlib.contextmanager
 def interactive_mode():
+  # Leaving a block only ends interactive mode if entering it switched the mode
+  # on, so that blocks can be nested (or used after `enter_interactive_mode`).
+  was_interactive = _INTERACTIVE_MODE
   try:
     enter_interactive_mode()
     yield
   finally:
-    exit_interactive_mode()
+    if not was_interactive:
+      exit_interactive_mode()
 
 
 def finalize():
